@@ -67,6 +67,23 @@ class ListObj(SyncObj):
         OBS.append(('apply-raise0', pos))
         raise KeyError('boom0')
 
+    @replicated
+    def boomx(self, sid):
+        # application-defined exception class
+        pos = self.raftLastApplied + 1
+        OBS.append(('apply-raise', pos, sid))
+        raise AppError('boomx %r' % (sid,))
+
+    @replicated
+    def boomo(self, sid):
+        pos = self.raftLastApplied + 1
+        OBS.append(('apply-raise', pos, sid))
+        raise OSError(5, 'boomo %r' % (sid,))
+
+
+class AppError(Exception):
+    pass
+
 
 class VOld(SyncObj):
     """'Old code': put exists in version 0 only."""
@@ -910,7 +927,7 @@ def run_event(b, ev, cfg, kill_at=None):
 # --------------------------------------------------------------------------------------
 # World
 
-BUDGET_KINDS = ('E', 'H', 'S', 'X', 'R', 'K', 'F', 'P', 'U', 'M', 'O', 'V', 'W', 'J', 'Q')
+BUDGET_KINDS = ('E', 'H', 'S', 'X', 'R', 'K', 'F', 'P', 'U', 'M', 'O', 'V', 'W', 'J', 'Q', 'G')
 
 
 class World(object):
@@ -1038,6 +1055,8 @@ class ClusterModel(object):
                 evs.append(('F', n))
             if bud['W'] > 0 and s.leader_flag:
                 evs.append(('W', n))
+            if bud['G'] > 0 and s.leader_flag:
+                evs.append(('G', n))
             if bud['S'] > 0:
                 evs.append(('S', n))
                 for meth in self.cfg.methods:
@@ -1202,6 +1221,9 @@ class ClusterModel(object):
         if kind == 'F':
             b = self.spend(w, 'F')
             return b and self.node_step(w, ev[1], ('tick', cfg.fallback + EPS), budget=b, label=ev)
+        if kind == 'G':   # a tick after a little more than half a heartbeat period
+            b = self.spend(w, 'G')
+            return b and self.node_step(w, ev[1], ('tick', tick_dt(cfg, ev)), budget=b, label=ev)
         if kind == 'W':
             b = self.spend(w, 'W')
             return b and self.node_step(w, ev[1], ('tick', cfg.period + EPS, cfg.period / 2.0), budget=b, label=ev)
@@ -1409,6 +1431,8 @@ def tick_dt(cfg, ev):
         return cfg.period + EPS
     if k == 'E':
         return cfg.tmin + EPS
+    if k == 'G':
+        return round(cfg.period * 0.55, 6)
     if k == 'F':
         return cfg.fallback + EPS
     if k == 'T':
